@@ -311,9 +311,103 @@ def c16_cases(ctx, preds, specs):
     for shape, _kw, n in specs:
         keys = sorted(preds[shape])
         rng.shuffle(keys)
+        if shape.endswith("x"):
+            # two locations: the plans in which a consumer that staged a REPLICA of its input on its own location fails
+            # fail-stop in the execute phase (some but not all copies of the producer's output are lost) always run
+            def partial_loss(k):
+                plan = preds[shape][k][0]["plan"] or {}
+                return any(kk.endswith("|e") and v[1] == "fail_stop" and not kk.startswith("a|") for kk, v in plan.items())
+            keys.sort(key=lambda k: not partial_loss(k))
+            ctx.count("plans_losing_some_but_not_all_replicas:%s" % shape, sum(partial_loss(k) for k in keys[:n]))
         keys = sorted(keys[:n])
         for k in keys:
             plan = preds[shape][k][0]["plan"] or {}
             failstop = any(v[1] == "fail_stop" for v in plan.values())
             out.append((shape, k, shape.startswith("scat") and failstop))
+    return out
+
+
+# ---------------------------------------------------------------------------------------------------
+# pipeline -> loop shapes (C16): bound to the code by the outputs-equal-failure-free oracle only
+# ---------------------------------------------------------------------------------------------------
+
+def loop_plan_sig(plan):
+    items = []
+    for k, v in sorted(plan.items()):
+        job, ph = k.split("|")
+        name, tag = job.strip("/").split("/")
+        role = name.rstrip("0123456789") if name.startswith("pre") else "%s@%s" % (name, "0" if tag.endswith(".0") else ">0")
+        items.append("%s(%s:%s<)" % (role, ph[0], v[0]))
+    return "loop:" + (",".join(sorted(items)) or "none")
+
+
+def run_loop(ctx, n, pre, plan, seed, *, stall=12.0, timeout=600.0):
+    """plan: {"<job name>|<phase>": [kind, times]}.  Free running under seeded completion delays."""
+    from vh import aio
+    from vh.sut import recov
+    from .. import tlc as _t
+    root = os.path.join(ctx.scratch("runs"), "l%d" % ctx.counters.get("real_runs", 0))
+    ctx.count("real_runs")
+    rp = {(k.split("|")[0], k.split("|")[1]): [v[0], int(v[1])] for k, v in plan.items()}
+    try:
+        obs, exc = aio.run(recov.run_plan(recov.loop(n, pre), rp, root, delays=aio.SeededDelays(seed, K=3), stall=stall,
+                                          max_retries=BIG_LIMIT), timeout=timeout)
+    finally:
+        shutil.rmtree(root, ignore_errors=True)
+    if exc is not None:
+        raise _t.MachineryError("loop run crashed in the harness: %r (%s)" % (exc, plan))
+    if obs["harness_errors"]:
+        raise _t.MachineryError("harness error inside a loop run: %s" % obs["harness_errors"][:3])
+    return obs
+
+
+def loop_case(ctx, n, pre, plan, seed):
+    obs = run_loop(ctx, n, pre, plan, seed)
+    if obs["outcome"] == "hang":
+        ctx.count("hangs_detected_first_attempt")
+        obs = run_loop(ctx, n, pre, plan, seed, stall=20.0)
+        if obs["outcome"] != "hang":
+            ctx.count("extra:hang_not_reproduced(second attempt terminated)")
+    return obs
+
+
+def loop_expected(ctx, n, pre, cache={}):
+    if (n, pre) not in cache:
+        from .. import tlc as _t
+        obs = run_loop(ctx, n, pre, {}, 0)
+        if obs["outcome"] != "return":
+            raise _t.MachineryError("failure-free loop run did not complete: %s" % obs.get("error"))
+        exp = "x0"
+        for i in range(pre):
+            exp = "pre%d(%s)" % (i + 1, exp)
+        for _ in range(n):
+            exp = "body(%s)" % exp
+        if obs["outputs"] != {"loop": [["0", exp]], "loop:terminated": 1}:
+            raise _t.MachineryError("failure-free loop run has unexpected outputs: %s" % obs["outputs"])
+        cache[(n, pre)] = obs["outputs"]
+    return cache[(n, pre)]
+
+
+def loop_plans(ctx):
+    """(n, pre, plan): fail-stop of a body job at iteration 0 and >0 in every phase, of the counter job, of the upstream job;
+    soft controls."""
+    P = {"s": "schedule", "t": "transfer", "e": "execute"}
+    out = []
+    if ctx.quick:
+        for it in (0, 1, 2):
+            for ph in "ste":
+                out.append((3, 1, {"/body/0.%d|%s" % (it, P[ph]): ["fail_stop", 1]}))
+        out += [(3, 1, {"/body/0.1|%s" % P[ph]: ["soft", 1]}) for ph in "ste"]
+        out += [(3, 1, {"/inc/0.0|execute": ["fail_stop", 1]}), (3, 1, {"/inc/0.2|schedule": ["fail_stop", 1]}),
+                (3, 1, {"/pre1/0|execute": ["fail_stop", 1]}), (2, 2, {"/body/0.1|execute": ["fail_stop", 2]})]
+        return out
+    rng = ctx.rng("loop-plans")
+    for n, pre in ((3, 1), (2, 2)):
+        jobs = ["/pre%d/0" % (i + 1) for i in range(pre)] + ["/%s/0.%d" % (x, i) for x in ("body", "inc") for i in range(n)]
+        singles = [(j, ph, kind, t) for j in jobs for ph in "ste" for kind in ("soft", "fail_stop") for t in (1, 2)]
+        out += [(n, pre, {"%s|%s" % (j, P[ph]): [kind, t]}) for j, ph, kind, t in singles]
+        pairs = [(a, b2) for a in singles for b2 in singles if (a[0], a[1]) < (b2[0], b2[1]) and a[3] == 1 and b2[3] == 1]
+        rng.shuffle(pairs)
+        for a, b2 in pairs[:80]:
+            out.append((n, pre, {"%s|%s" % (a[0], P[a[1]]): [a[2], 1], "%s|%s" % (b2[0], P[b2[1]]): [b2[2], 1]}))
     return out
